@@ -37,6 +37,7 @@ structure Tables where
   metaLiteral : String
   sdlEmptyTokenSpins : Bool
   exeVarTypeOptional : Bool
+  opFallbackAnyName : Bool
 
 /-- snapshot of `Gen/Tables.lean` at the pinned commit -/
 def pinnedValueTbl : ValueText.Tbl :=
@@ -163,6 +164,6 @@ def pinnedTables : Tables :=
     outTime := Pinned.coerceOutTime, inTime := Pinned.coerceInTime,
     introTable := pinnedIntroTable,
     locateTable := [(.enum, "ENUM"), (.iface, "INTERFACE"), (.input, "INPUT_OBJECT"), (.object, "OBJECT"), (.scalar, "SCALAR"), (.union, "UNION")],
-    metaLiteral := "Query", sdlEmptyTokenSpins := true, exeVarTypeOptional := true }
+    metaLiteral := "Query", sdlEmptyTokenSpins := true, exeVarTypeOptional := true, opFallbackAnyName := true }
 
 end Ggql.Driver
